@@ -393,7 +393,7 @@ func c10AttHostileSession(g gen.G) c10Conn {
 	if g.Bool() {
 		add(0x1211, att.Body1211(f, g.U8()))
 	}
-	nchunks := 1 + g.Intn(4)
+	nchunks := g.Intn(5) // 0: a completion (0x1212) for an announced file of which nothing was ever received
 	remaining := int(size % 4096)
 	for k := 0; k < nchunks; k++ {
 		ln := uint32(g.Intn(40))
